@@ -89,6 +89,46 @@ def run(ctx, rep):
                 if ok else
                 "first-arrival/pop selection among errors that carry per-input context: with several failing inputs the reported error depends on thread scheduling; context added at: " + "; ".join(reasons[:4])),
                b.file, t["l"])
+    # ---- complete production into sorted channels ------------------------------------------------------------------------
+    # "all errors, sorted" is deterministic only if the set of errors is: a producer that pushes from inside a loop over a hash
+    # container (iteration order differs between runs, and the partition into buckets differs between thread counts) must keep
+    # going after a push - stopping at the first error makes *which* errors exist depend on the iteration order.
+    rep.rule("complete-production", "a push into a sorted error channel from inside a loop over a hash container is followed by the next iteration on every path (no early exit after the first error)")
+    sorted_kinds = set()
+    for b, bi, t, ty in drains:
+        flow = P.flow(b)
+        for bj, tt in flow.calls():
+            k2 = callee_key(tt["f"]) or ""
+            if k2.split("::")[-1] in SORTS and tt["args"]:
+                p2 = op_place(tt["args"][0])
+                if p2 and ERR in b.locals[p2[0]]:
+                    sorted_kinds.add((b.file, re.search(r"(ArrayQueue|SegQueue|Vec)", ty).group(1)))
+    n_cp = 0
+    for pb, pbi, pt, pty in pushes:
+        kind = re.search(r"(ArrayQueue|SegQueue|Vec)", pty).group(1)
+        if (pb.file, kind) not in sorted_kinds:
+            continue
+        cfg, flow = P.cfg(pb), P.flow(pb)
+        loops = []
+        for bi, t in flow.calls():
+            ck = callee_key(t["f"]) or ""
+            nxt = t.get("to")
+            in_cycle = nxt is not None and bi in cfg.reachable_from(nxt)
+            if ck.endswith("as std::iter::Iterator>::next") and cfg.dominates(bi, pbi) and in_cycle:
+                loops.append((bi, ck))
+        hash_loops = [(bi, ck) for bi, ck in loops if re.search(r"hashbrown|HashMap|HashSet|hash_map|hash_set|hash_table", ck)]
+        if not hash_loops:
+            continue
+        n_cp += 1
+        nexts = {bi for bi, _ck in hash_loops}
+        after = cfg.reachable_from(pbi, avoid=nexts)
+        exits = [x for x in after if pb.blocks[x]["t"]["k"] == "return"]
+        rep.ob("complete-production", f"{stable(pb.key)}:{kind}", not exits,
+               ("after pushing an error the loop over the hash container continues" if not exits else
+                "after pushing an error the function can return without visiting the remaining entries: which errors are reported then depends on the hash "
+                "iteration order (randomly seeded) and on the number of buckets (= threads)"), pb.file, pt["l"])
+    rep.floor("complete-production", "pushes into sorted channels from hash-container loops", n_cp, 1)
+
     # inventory of rayon first-error combinators
     n = 0
     for b in F.all_bodies:
